@@ -11,6 +11,8 @@ import numpy as np
 
 from vlib.core import PropertyCheck
 from translate import gates as tg
+from translate import gatector as tgc
+from props import c09_ctor as cc
 
 PI = math.pi
 ANGLES = [0.0, PI, -PI, 2 * PI, 1e-9, -1e-9, PI / 2, -PI / 2, PI / 4, 3 * PI / 4, 7.3, -9.1, 4 * PI, 100.0, 0.123456789]
@@ -193,6 +195,11 @@ class C09(PropertyCheck):
         # exact library = translated source
         "QipVerif.C09.exact_library_is_source", "QipVerif.C09.circuit_semantics_is_source",
         "QipVerif.GateExact.compactC_fixed_is_source",
+        # constructor arguments of the gate classes
+        "QipVerif.C09.hard_values_sound", "QipVerif.C09.ctor_table_sound", "QipVerif.C09.ctor_hardcoded_refuses",
+        "QipVerif.C09.ctor_controlled_anatomy", "QipVerif.C09.ctor_request_honoured_partial",
+        "QipVerif.C09.ctor_cphase_counterexample", "QipVerif.C09.ctor_plain_anatomy", "QipVerif.C09.ctor_fixed_counterexample",
+        "QipVerif.C09.ctor_circuit_agrees", "QipVerif.C09.ctor_controlled_matrix", "QipVerif.C09.ctor_controlled_value_refused",
     ]
     base_theorems = list(theorems)
     technique = ("Lean 4: gate functions, the cphase construction and literal class matrices translated from the source into "
@@ -234,7 +241,17 @@ class C09(PropertyCheck):
         self.theorems = list(self.base_theorems) + list(tg.regenerate.path_theorems)
         self.path_skipped = tg.regenerate.path_skipped
         self.extra = tg.regenerate.extra
-        return ["GateDefs.lean", "GateDefsF.lean", "GateExtra.lean", "GatePaths.lean"]
+        _, self.ctor = tgc.regenerate((chain, classes, class_map))
+        return ["GateDefs.lean", "GateDefsF.lean", "GateExtra.lean", "GatePaths.lean", "GateCtor.lean"]
+
+    def _ctor(self):
+        d = getattr(self, "ctor", None)
+        if d is None:
+            d = self.ctor = tgc.extract()
+            for e in d["entries"]:
+                e["argSpec"] = tgc.arg_spec(e["spec"])
+            self.class_map = tg.name_chain()[2]
+        return d
 
     # ---------------------------------------------------------------------------------
     def correspondence(self, ctx, res):
@@ -358,6 +375,10 @@ class C09(PropertyCheck):
         #     placement on <= 4 qubits, every control value incl. the refused ones, N given / defaulted; argument shapes
         self._corr_ctrl(ctx, res, drv)
 
+        # (e) model of the constructor chains of the gate classes (Model/GateCtor.lean over the regenerated Gen/GateCtor.lean)
+        #     vs the implementation: refusal kind, what the object carries, matrix of get_compact_qobj
+        cc.correspondence(ctx, res, drv, self._ctor()["entries"], self.class_map)
+
     def _corr_ctrl(self, ctx, res, drv):
         import qutip
         from qutip_qip.operations import controlled_gate
@@ -480,6 +501,8 @@ class C09(PropertyCheck):
                 return True, f"controlled gate differs from the block specification by {d:.3g}"
             d = np.abs(R.conj().T @ R - np.eye(len(R))).max()
             return bool(d > 1e-10), f"controlled gate of a unitary is not unitary (|R*R-1| = {d:.3g})" if d > 1e-10 else "block specification met"
+        if w["kind"] == "ctor":
+            return cc.oracle(w)
         if w["kind"] == "ctrl-malformed":
             return False, "malformed request to controlled_gate (outside the property); only the refusal kind is compared"
         return False, "unknown witness"
@@ -500,7 +523,29 @@ class C09(PropertyCheck):
                 yield {"kind": "ctrl", "U_re": U.real.tolist(), "U_im": U.imag.tolist(), "controls": qs[:nc], "targets": qs[nc:],
                        "N": N, "value": rng.randrange(2 ** nc)}
 
+    def _ctor_sweep(self):
+        """constructor requests: every class / path, well-formed placements, every control value.  The two request classes
+        for which Props/C09.lean proves a counterexample on the current source (flags read from the regenerated table) are
+        left to the known-findings replay."""
+        d = self._ctor()
+        by_key = {e["key"]: e for e in d["entries"]}
+        for w in cc.sweep_requests(d["entries"], self.class_map):
+            if cc.excluded(w, by_key):
+                continue
+            f, det = cc.oracle(w)
+            if f:
+                yield w, det
+
+    def finding_matches(self, witness, finding):
+        fw = finding.get("witness") or {}
+        if witness.get("kind") == "ctor" and fw.get("kind") == "ctor":
+            by_key = {e["key"]: e for e in self._ctor()["entries"]}
+            a, b = cc.excluded(witness, by_key), cc.excluded(fw, by_key)
+            return a is not None and a == b
+        return super().finding_matches(witness, finding)
+
     def oracle_always(self, ctx):
+        yield from self._ctor_sweep()
         for w in self._witnesses(ctx, 300 if not ctx.thorough else 3000):
             f, d = self.oracle_replay(ctx, w)
             if f:
@@ -508,6 +553,7 @@ class C09(PropertyCheck):
 
     def oracle_search(self, ctx, budget_s):
         t0 = time.time()
+        yield from self._ctor_sweep()
         for name in SHAPES:
             for i in range(len(ANGLES) if name in NARGS else 1):
                 w = {"kind": "gate", "name": name, "arg": gate_args(name, ctx.rng, i)}
